@@ -1,4 +1,16 @@
-(** Proofs for C12 (structured multi-line fields). *)
+(** Proofs for C12 (structured multi-line fields).
+
+    Layout:
+      1. generic lemmas (mapM, keys, records)
+      2. properties of the REGENERATED tables, established by computation over
+         Gen/MvTables.v (finite tables: a complete sweep)
+      3. one record line: [fmt_item] = the documented line
+      4. the size column width: [fixed_field_lengths] = the documented rule
+      5. [get_as_string] = [spec_value]; [dump_para] = [spec_dump] on the domain
+      6. totality of [dump_para] on every paragraph whose PRESENT fields are dumpable
+      7. parsing: [mv_parse_field] of the documented text gives the records back
+      8. the whole paragraph: [mv_init] *)
+From Coq Require Import Lia.
 From Verif Require Import Lib.Base Lib.PyStr Lib.Dec Gen.PyChars Gen.MvTables
   Deb822.Multivalued Deb822.MvSpec.
 
@@ -7,3 +19,1680 @@ From Verif Require Import Lib.Base Lib.PyStr Lib.Dec Gen.PyChars Gen.MvTables
 Lemma ffl_kind_matches_tables : forall c,
   has_ffl c = match ffl_kind c with Some _ => true | None => false end.
 Proof. destruct c; reflexivity. Qed.
+
+(** * 1. Generic lemmas *)
+
+Lemma mapM_ok_map {A B} (f : A -> result B) (g : A -> B) l :
+  (forall a, In a l -> f a = Ok (g a)) -> mapM f l = Ok (map g l).
+Proof.
+  induction l as [|a l IH]; simpl; intros H; [reflexivity|].
+  rewrite H by now left. simpl. rewrite IH; [reflexivity|].
+  intros b Hb. apply H. now right.
+Qed.
+
+Lemma mapM_is_ok {A B} (f : A -> result B) l :
+  (forall a, In a l -> is_ok (f a) = true) -> is_ok (mapM f l) = true.
+Proof.
+  induction l as [|a l IH]; simpl; intros H; [reflexivity|].
+  pose proof (H a (or_introl eq_refl)) as Ha.
+  destruct (f a) as [b|e]; [|discriminate]. simpl.
+  assert (Hl : is_ok (mapM f l) = true) by (apply IH; intros; apply H; now right).
+  destruct (mapM f l); [reflexivity|discriminate].
+Qed.
+
+Lemma is_ok_exists {A} (r : result A) : is_ok r = true -> exists a, r = Ok a.
+Proof. destruct r; [eauto|discriminate]. Qed.
+
+Lemma key_eqb_refl ci a : key_eqb ci a a = true.
+Proof. destruct ci; simpl; apply str_eqb_refl. Qed.
+
+Lemma key_eqb_weaken ci a b : key_eqb ci a b = false -> key_eqb false a b = false.
+Proof.
+  destruct ci; [|auto]. simpl. intros H.
+  destruct (str_eqb a b) eqn:E; [|reflexivity].
+  apply str_eqb_eq in E. subst. now rewrite str_eqb_refl in H.
+Qed.
+
+Lemma key_eqb_true_false ci a b : key_eqb true a b = false -> key_eqb ci a b = false.
+Proof. destruct ci; [auto|]. apply (key_eqb_weaken true). Qed.
+
+(** [x] is not (up to [ci]) among the keys [l] *)
+Definition notin (ci : bool) (x : str) (l : list str) : bool :=
+  forallb (fun k => negb (key_eqb ci k x)) l.
+
+Lemma notin_ci ci x l : notin true x l = true -> notin ci x l = true.
+Proof.
+  unfold notin. rewrite !forallb_forall. intros H k Hk.
+  specialize (H k Hk). apply negb_true_iff in H. apply negb_true_iff.
+  now apply key_eqb_true_false.
+Qed.
+
+Lemma notin_app ci x a b : notin ci x (a ++ b) = notin ci x a && notin ci x b.
+Proof. unfold notin. apply forallb_app. Qed.
+
+(** sub-field names pairwise different, even up to case *)
+Fixpoint nodup_ci (l : list str) : bool :=
+  match l with
+  | [] => true
+  | x :: l' => forallb (fun y => negb (key_eqb true x y)) l' && nodup_ci l'
+  end.
+
+Lemma rec_get_skip ci x : forall pre rpre rest,
+  length pre = length rpre -> notin ci x pre = true ->
+  rec_get ci x (combine pre rpre ++ rest) = rec_get ci x rest.
+Proof.
+  induction pre as [|k pre IH]; intros rpre rest Hlen Hn; [reflexivity|].
+  destruct rpre as [|t rpre]; [discriminate|].
+  simpl in *. apply andb_true_iff in Hn. destruct Hn as [Hk Hn].
+  apply negb_true_iff in Hk. rewrite Hk. apply IH; [lia|assumption].
+Qed.
+
+Lemma combine_snoc {A B} (a : list A) (b : list B) x y :
+  length a = length b -> combine (a ++ [x]) (b ++ [y]) = combine a b ++ [(x, y)].
+Proof.
+  revert b. induction a as [|a0 a IH]; intros [|b0 b] H; try discriminate; [reflexivity|].
+  simpl in *. f_equal. apply IH. lia.
+Qed.
+
+Lemma existsb_repeat {A} (p : A -> bool) a n : p a = false -> existsb p (repeat a n) = false.
+Proof. intros H. induction n; simpl; [reflexivity|]. now rewrite H. Qed.
+
+Lemma forallb_repeat {A} (p : A -> bool) a n : p a = true -> forallb p (repeat a n) = true.
+Proof. intros H. induction n; simpl; [reflexivity|]. now rewrite H. Qed.
+
+Lemma mem_char_pad n t : mem_char LF (pad_left n t) = mem_char LF t.
+Proof.
+  unfold pad_left, mem_char. rewrite existsb_app, existsb_repeat; [reflexivity|].
+  reflexivity.
+Qed.
+
+(** * 3. One record line *)
+
+(** The text of one column, as the model prints it. *)
+Definition col (len : option N) (x t : str) : str :=
+  match (if str_eqb x mv_size_key then len else None) with
+  | Some n => pad_left n t
+  | None => t
+  end.
+
+Lemma mem_char_col len x t : mem_char LF (col len x t) = mem_char LF t.
+Proof.
+  unfold col. destruct (str_eqb x mv_size_key); [destruct len|]; auto using mem_char_pad.
+Qed.
+
+Lemma fmt_cols ci len : forall order row pre rpre,
+  length row = length order -> length pre = length rpre ->
+  (forall y, In y order -> notin true y pre = true) ->
+  nodup_ci order = true ->
+  forallb (fun t => negb (mem_char LF t)) row = true ->
+  mapM (fmt_col ci len (RecItem (combine pre rpre ++ combine order row))) order
+  = Ok (map (fun xt => SP :: col len (fst xt) (snd xt)) (combine order row)).
+Proof.
+  induction order as [|x order IH]; intros row pre rpre Hlen Hpre Hnotin Hnd Hlf; [reflexivity|].
+  destruct row as [|t row]; [discriminate|].
+  simpl in Hlen, Hnd, Hlf.
+  apply andb_true_iff in Hnd. destruct Hnd as [Hx Hnd].
+  apply andb_true_iff in Hlf. destruct Hlf as [Ht Hlf].
+  cbn [mapM combine map fst snd].
+  assert (Hget : rec_get ci x (combine pre rpre ++ (x, t) :: combine order row) = Ok t).
+  { rewrite rec_get_skip; [|assumption|apply notin_ci, Hnotin; now left].
+    simpl. now rewrite key_eqb_refl. }
+  unfold fmt_col at 1. cbn [item_get]. rewrite Hget. cbn [bind].
+  fold (col len x t). rewrite mem_char_col.
+  apply negb_true_iff in Ht. rewrite Ht. cbn [bind].
+  replace (combine pre rpre ++ (x, t) :: combine order row)
+    with (combine (pre ++ [x]) (rpre ++ [t]) ++ combine order row)
+    by (rewrite combine_snoc by assumption; now rewrite <- app_assoc).
+  rewrite IH; [reflexivity|lia|rewrite !app_length; simpl; lia| |assumption|assumption].
+  intros y Hy. rewrite notin_app. rewrite Hnotin by now right. simpl.
+  rewrite forallb_forall in Hx. rewrite (Hx y Hy). reflexivity.
+Qed.
+
+Lemma fmt_item_row ci len order row :
+  length row = length order -> nodup_ci order = true ->
+  forallb (fun t => negb (mem_char LF t)) row = true ->
+  fmt_item ci order len (RecItem (combine order row))
+  = Ok (concat (map (fun xt => SP :: col len (fst xt) (snd xt)) (combine order row)) ++ [LF]).
+Proof.
+  intros Hlen Hnd Hlf. unfold fmt_item.
+  pose proof (fmt_cols ci len order row [] [] Hlen eq_refl (fun _ _ => eq_refl) Hnd Hlf) as H.
+  cbn [combine app] in H. rewrite H. reflexivity.
+Qed.
+
+(** * 2. Facts about the regenerated tables (complete sweeps of finite tables) *)
+
+Definition is_nil {A} (l : list A) : bool := match l with [] => true | _ => false end.
+
+(** any sub-field name equal to the size key up to case IS the size key *)
+Definition size_exact (order : list str) : bool :=
+  forallb (fun x => Bool.eqb (key_eqb true x mv_size_key) (str_eqb x mv_size_key)) order.
+Definition has_size (order : list str) : bool := existsb (fun x => str_eqb x mv_size_key) order.
+
+Definition order_ok (order : list str) : bool :=
+  nodup_ci order && negb (is_nil order) && size_exact order.
+
+Fixpoint nodup_exact (l : list str) : bool :=
+  match l with
+  | [] => true
+  | x :: l' => negb (existsb (str_eqb x) l') && nodup_exact l'
+  end.
+
+Definition table_ok (c : cls) : bool :=
+  forallb (fun kv => str_eqb (ascii_lower (fst kv)) (fst kv)
+                     && order_ok (snd kv)
+                     && match ffl_kind c with None => true | Some _ => has_size (snd kv) end)
+          (table_of c)
+  && nodup_exact (map fst (table_of c)).
+
+Lemma tables_ok : forall c, table_ok c = true.
+Proof. destruct c; vm_compute; reflexivity. Qed.
+
+(** The regenerated tables are the documented ones (field names in lower case,
+    sub-field names as documented, same order). *)
+Lemma tables_match_doc : forall c, table_of c = doc_lower c.
+Proof. destruct c; vm_compute; reflexivity. Qed.
+
+Lemma spec_size_is_model_size : spec_size_name = mv_size_key.
+Proof. vm_compute. reflexivity. Qed.
+
+Lemma fixed_width_is_16 : release_fixed_width = 16%N.
+Proof. vm_compute. reflexivity. Qed.
+
+Lemma linebreak_is_space c : py_islinebreak c = true -> py_isspace c = true.
+Proof.
+  unfold py_islinebreak. intros H. apply existsb_exists in H. destruct H as [x [Hin Hx]].
+  apply N.eqb_eq in Hx. subst x.
+  assert (G : forallb py_isspace py_linebreaks = true) by (vm_compute; reflexivity).
+  rewrite forallb_forall in G. now apply G.
+Qed.
+
+Lemma table_lookup_in c k order :
+  lookup_exact k (table_of c) = Some order -> In (k, order) (table_of c).
+Proof.
+  generalize (table_of c). induction l as [|[k' o] l IH]; simpl; [discriminate|].
+  destruct (str_eqb k' k) eqn:E.
+  - intros [= <-]. apply str_eqb_eq in E. subst. now left.
+  - intros H. right. now apply IH.
+Qed.
+
+Lemma table_entry_ok c k order :
+  In (k, order) (table_of c) ->
+  ascii_lower k = k /\ order_ok order = true
+  /\ (ffl_kind c <> None -> has_size order = true).
+Proof.
+  intros Hin. pose proof (tables_ok c) as H. unfold table_ok in H.
+  apply andb_true_iff in H. destruct H as [H _].
+  rewrite forallb_forall in H. specialize (H _ Hin). cbn [fst snd] in H.
+  apply andb_true_iff in H. destruct H as [H H3].
+  apply andb_true_iff in H. destruct H as [H1 H2].
+  apply str_eqb_eq in H1. repeat split; auto.
+  intros Hk. destruct (ffl_kind c); [assumption|congruence].
+Qed.
+
+Lemma order_ok_parts order :
+  order_ok order = true -> nodup_ci order = true /\ order <> [] /\ size_exact order = true.
+Proof.
+  unfold order_ok. intros H.
+  apply andb_true_iff in H. destruct H as [H H3].
+  apply andb_true_iff in H. destruct H as [H1 H2].
+  repeat split; auto. destruct order; [discriminate|congruence].
+Qed.
+
+(** * 4. The width of the size column *)
+
+Lemma rec_get_lookup ci : forall order row,
+  size_exact order = true ->
+  rec_get ci mv_size_key (combine order row)
+  = match lookup_exact mv_size_key (combine order row) with
+    | Some t => Ok t
+    | None => Err KeyError
+    end.
+Proof.
+  induction order as [|x order IH]; intros row Hse; [reflexivity|].
+  destruct row as [|t row]; [reflexivity|].
+  simpl in Hse. apply andb_true_iff in Hse. destruct Hse as [Hx Hse].
+  apply eqb_prop in Hx. cbn [combine rec_get lookup_exact].
+  assert (E : key_eqb ci x mv_size_key = str_eqb x mv_size_key).
+  { destruct ci; [exact Hx|reflexivity]. }
+  rewrite E. destruct (str_eqb x mv_size_key); [reflexivity|]. now apply IH.
+Qed.
+
+Lemma filter_lookup k : forall order row,
+  nodup_ci order = true ->
+  map snd (filter (fun xt => str_eqb (fst xt) k) (combine order row))
+  = match lookup_exact k (combine order row) with Some t => [t] | None => @nil str end.
+Proof.
+  induction order as [|x order IH]; intros row Hnd; [reflexivity|].
+  destruct row as [|t row]; [reflexivity|].
+  cbn [nodup_ci] in Hnd. apply andb_true_iff in Hnd. destruct Hnd as [Hx Hnd].
+  cbn [combine filter lookup_exact fst]. destruct (str_eqb x k) eqn:E.
+  - apply str_eqb_eq in E. subst x. cbn [map snd]. f_equal.
+    (* no other column carries the same name *)
+    clear IH Hnd. revert row. induction order as [|y order IH]; intros row; [reflexivity|].
+    destruct row as [|u row]; [reflexivity|].
+    cbn [forallb] in Hx. apply andb_true_iff in Hx. destruct Hx as [Hy Hx].
+    cbn [combine filter fst]. destruct (str_eqb y k) eqn:E2.
+    + apply str_eqb_eq in E2. subst y. now rewrite key_eqb_refl in Hy.
+    + now apply IH.
+  - now apply IH.
+Qed.
+
+Lemma lookup_size_some : forall (order : list str) (row : list str),
+  has_size order = true -> length row = length order ->
+  exists t, lookup_exact mv_size_key (combine order row) = Some t.
+Proof.
+  induction order as [|x order IH]; intros row Hs Hlen; [discriminate|].
+  destruct row as [|t row]; [discriminate|].
+  simpl in Hs, Hlen. cbn [combine lookup_exact].
+  destruct (str_eqb x mv_size_key); [eauto|]. simpl in Hs. apply IH; [assumption|lia].
+Qed.
+
+Definition measure (t : str) : N := N.of_nat (length t).
+
+Lemma size_lengths ci order : forall rows,
+  nodup_ci order = true -> size_exact order = true -> has_size order = true ->
+  forallb (fun row => (length row =? length order)%nat) rows = true ->
+  mapM (fun it => do s <- item_get ci mv_size_key it; Ok (N.of_nat (length s)))
+       (map RecItem (map (combine order) rows))
+  = Ok (map measure (sizes_of order rows)).
+Proof.
+  intros rows Hnd Hse Hs. induction rows as [|row rows IH]; intros Hl; [reflexivity|].
+  simpl in Hl. apply andb_true_iff in Hl. destruct Hl as [Hr Hl].
+  apply Nat.eqb_eq in Hr.
+  cbn [map mapM item_get]. rewrite rec_get_lookup by assumption.
+  destruct (lookup_size_some order row Hs Hr) as [t Ht].
+  unfold sizes_of. cbn [flat_map]. rewrite spec_size_is_model_size.
+  rewrite filter_lookup by assumption. rewrite Ht. cbn [bind].
+  fold (sizes_of order rows). unfold sizes_of in IH. rewrite spec_size_is_model_size in IH.
+  rewrite IH by assumption. reflexivity.
+Qed.
+
+Lemma sizes_of_nonempty order row rows :
+  nodup_ci order = true -> has_size order = true -> length row = length order ->
+  exists t ts, sizes_of order (row :: rows) = t :: ts.
+Proof.
+  intros Hnd Hs Hr. unfold sizes_of. cbn [flat_map]. rewrite spec_size_is_model_size.
+  rewrite filter_lookup by assumption.
+  destruct (lookup_size_some order row Hs Hr) as [t ->]. simpl. eauto.
+Qed.
+
+Lemma max_of_nat l :
+  fold_right N.max 0%N (map measure l) = N.of_nat (longest l).
+Proof.
+  unfold longest, measure. induction l as [|t l IH]; [reflexivity|].
+  cbn [map fold_right]. rewrite IH. now rewrite Nat2N.inj_max.
+Qed.
+
+(** [_get_size_field_length] on a list of complete records *)
+Lemma size_field_length_rows ci order row rows :
+  nodup_ci order = true -> size_exact order = true -> has_size order = true ->
+  forallb (fun r => (length r =? length order)%nat) (row :: rows) = true ->
+  size_field_length ci (Multi (spec_records order (row :: rows)))
+  = Ok (N.of_nat (longest (sizes_of order (row :: rows)))).
+Proof.
+  intros Hnd Hse Hs Hl. unfold size_field_length, spec_records. cbn [items_iter].
+  rewrite size_lengths by assumption. cbn [bind].
+  assert (Hr : length row = length order).
+  { simpl in Hl. apply andb_true_iff in Hl. destruct Hl as [Hr _]. now apply Nat.eqb_eq. }
+  destruct (sizes_of_nonempty order row rows Hnd Hs Hr) as [t [ts E]].
+  rewrite E. cbn [map]. rewrite <- E. f_equal. rewrite <- max_of_nat. now rewrite E.
+Qed.
+
+(** ** [_fixed_field_lengths] as a pure function, when no lookup fails *)
+
+Definition W (ci : bool) (v : fvalue) : N :=
+  match size_field_length ci v with Ok n => n | Err _ => 0%N end.
+
+Definition ffl_expect (w : fvalue -> N) (keys : list str) (p : para) : list (str * N) :=
+  flat_map (fun k => match para_get k p with Some v => [(k, w v)] | None => [] end) keys.
+
+Definition width_fun (c : cls) (b : behav) (ci : bool) : option (fvalue -> N) :=
+  match ffl_kind c with
+  | None => None
+  | Some FflPdiff => Some (W ci)
+  | Some FflRelease => Some (match b with Apt => fun _ => release_fixed_width | Dak => W ci end)
+  end.
+
+Definition ffl_model (c : cls) (b : behav) (ci : bool) (p : para) : option (list (str * N)) :=
+  option_map (fun w => ffl_expect w (map fst (table_of c)) p) (width_fun c b ci).
+
+(** every PRESENT structured field is a list whose records all carry a size *)
+Definition sized_ok (c : cls) (ci : bool) (p : para) : Prop :=
+  ffl_kind c <> None ->
+  forall k v, In k (map fst (table_of c)) -> para_get k p = Some v ->
+    has_keys v = false /\ is_ok (size_field_length ci v) = true.
+
+Lemma W_ok ci v : is_ok (size_field_length ci v) = true -> size_field_length ci v = Ok (W ci v).
+Proof. unfold W. destruct (size_field_length ci v); [reflexivity|discriminate]. Qed.
+
+Lemma ffl_pdiff_expect ci p : forall keys,
+  (forall k v, In k keys -> para_get k p = Some v ->
+     has_keys v = false /\ is_ok (size_field_length ci v) = true) ->
+  ffl_pdiff ci keys p = Ok (ffl_expect (W ci) keys p).
+Proof.
+  induction keys as [|k keys IH]; intros H; [reflexivity|].
+  cbn [ffl_pdiff ffl_expect flat_map].
+  assert (IH' : ffl_pdiff ci keys p = Ok (ffl_expect (W ci) keys p)).
+  { apply IH. intros k' v' Hin. apply H. now right. }
+  destruct (para_get k p) as [v|] eqn:E.
+  - destruct (H k v (or_introl eq_refl) E) as [Hk Hs].
+    rewrite Hk, (W_ok ci v Hs). cbn [bind]. rewrite IH'. reflexivity.
+  - exact IH'.
+Qed.
+
+Lemma ffl_release_apt_expect ci p : forall keys,
+  ffl_release Apt ci keys p = Ok (ffl_expect (fun _ => release_fixed_width) keys p).
+Proof.
+  induction keys as [|k keys IH]; [reflexivity|].
+  cbn [ffl_release ffl_expect flat_map]. rewrite IH.
+  destruct (para_get k p); reflexivity.
+Qed.
+
+Lemma ffl_release_dak_expect ci p : forall keys,
+  (forall k v, In k keys -> para_get k p = Some v -> is_ok (size_field_length ci v) = true) ->
+  ffl_release Dak ci keys p = Ok (ffl_expect (W ci) keys p).
+Proof.
+  induction keys as [|k keys IH]; intros H; [reflexivity|].
+  cbn [ffl_release ffl_expect flat_map].
+  assert (IH' : ffl_release Dak ci keys p = Ok (ffl_expect (W ci) keys p)).
+  { apply IH. intros k' v' Hin. apply H. now right. }
+  destruct (para_get k p) as [v|] eqn:E.
+  - rewrite (W_ok ci v (H k v (or_introl eq_refl) E)). cbn [bind]. rewrite IH'. reflexivity.
+  - exact IH'.
+Qed.
+
+Lemma fixed_field_lengths_model c b ci p :
+  sized_ok c ci p -> fixed_field_lengths c b ci p = Ok (ffl_model c b ci p).
+Proof.
+  intros H. unfold fixed_field_lengths, ffl_model, width_fun, sized_ok in *.
+  destruct (ffl_kind c) as [[|]|]; [| |reflexivity].
+  - rewrite ffl_pdiff_expect; [reflexivity|]. intros k v. apply H. discriminate.
+  - destruct b.
+    + rewrite ffl_release_apt_expect. reflexivity.
+    + rewrite ffl_release_dak_expect; [reflexivity|].
+      intros k v Hin Hg. now apply (H ltac:(discriminate) k v).
+Qed.
+
+Lemma ffl_expect_lookup w p : forall keys k v,
+  In k keys -> para_get k p = Some v -> lookup_exact k (ffl_expect w keys p) = Some (w v).
+Proof.
+  induction keys as [|k0 keys IH]; intros k v Hin Hg; [contradiction|].
+  cbn [ffl_expect flat_map]. destruct (para_get k0 p) as [v0|] eqn:E0.
+  - cbn [app lookup_exact]. destruct (str_eqb k0 k) eqn:E.
+    + apply str_eqb_eq in E. subst k0. congruence.
+    + apply IH; [|assumption]. destruct Hin as [->|]; [|assumption].
+      now rewrite str_eqb_refl in E.
+  - cbn [app]. apply IH; [|assumption]. destruct Hin as [->|]; [congruence|assumption].
+Qed.
+
+(** The width [get_as_string] uses for the field stored under table key [k]. *)
+Lemma ffl_model_lookup c b ci p k v :
+  In k (map fst (table_of c)) -> para_get k p = Some v ->
+  match ffl_model c b ci p with Some l => lookup_exact k l | None => None end
+  = option_map (fun w => w v) (width_fun c b ci).
+Proof.
+  intros Hin Hg. unfold ffl_model. destruct (width_fun c b ci) as [w|]; [|reflexivity].
+  cbn [option_map]. now apply ffl_expect_lookup.
+Qed.
+
+(** * 5. [get_as_string] prints the documented text *)
+
+Lemma ascii_lower_idem s : ascii_lower (ascii_lower s) = ascii_lower s.
+Proof.
+  unfold ascii_lower. rewrite map_map. apply map_ext. intros c.
+  unfold ascii_lower_char.
+  destruct ((65 <=? c)%N && (c <=? 90)%N) eqn:E; [|now rewrite E].
+  apply andb_true_iff in E. destruct E as [E1 E2].
+  apply N.leb_le in E1. apply N.leb_le in E2.
+  destruct ((65 <=? c + 32)%N && (c + 32 <=? 90)%N) eqn:E3; [|reflexivity].
+  apply andb_true_iff in E3. destruct E3 as [_ E3]. apply N.leb_le in E3. lia.
+Qed.
+
+Lemma para_get_lower key p : para_get (ascii_lower key) p = para_get key p.
+Proof.
+  induction p as [|[k v] p IH]; [reflexivity|].
+  cbn [para_get key_eqb]. rewrite ascii_lower_idem. now rewrite IH.
+Qed.
+
+Lemma mapM_map_ok {A B C} (f : B -> result C) (g : A -> B) (h : A -> C) l :
+  (forall a, In a l -> f (g a) = Ok (h a)) -> mapM f (map g l) = Ok (map h l).
+Proof.
+  induction l as [|a l IH]; simpl; intros H; [reflexivity|].
+  rewrite H by now left. simpl. rewrite IH; [reflexivity|].
+  intros b Hb. apply H. now right.
+Qed.
+
+Lemma pad_is_rjust n t : pad_left (N.of_nat n) t = rjust n t.
+Proof. unfold pad_left, rjust. f_equal. f_equal. lia. Qed.
+
+Lemma col_spec w x t : col (option_map N.of_nat w) x t = spec_col w x t.
+Proof.
+  unfold col, spec_col. rewrite spec_size_is_model_size.
+  destruct w as [n|]; cbn [option_map].
+  - destruct (str_eqb x mv_size_key); [apply pad_is_rjust|reflexivity].
+  - now destruct (str_eqb x mv_size_key).
+Qed.
+
+Lemma token_no_lf t : token_ok t = true -> negb (mem_char LF t) = true.
+Proof.
+  unfold token_ok. intros H. apply andb_true_iff in H. destruct H as [_ H].
+  apply negb_true_iff. unfold mem_char.
+  destruct (existsb (N.eqb LF) t) eqn:E; [|reflexivity].
+  apply existsb_exists in E. destruct E as [c [Hin Hc]]. apply N.eqb_eq in Hc. subst c.
+  rewrite forallb_forall in H. specialize (H _ Hin). discriminate H.
+Qed.
+
+Lemma row_ok_parts order row :
+  row_ok order row = true ->
+  length row = length order /\ forallb token_ok row = true
+  /\ forallb (fun t => negb (mem_char LF t)) row = true.
+Proof.
+  unfold row_ok. intros H. apply andb_true_iff in H. destruct H as [H1 H2].
+  apply Nat.eqb_eq in H1. repeat split; auto.
+  rewrite forallb_forall in *. intros t Ht. apply token_no_lf. now apply H2.
+Qed.
+
+(** the text ends in a character that is not white space *)
+Definition ends_ok (s : str) : bool :=
+  match last_opt s with Some c => negb (py_isspace c) | None => false end.
+
+Lemma last_opt_app {A} (a b : list A) : b <> [] -> last_opt (a ++ b) = last_opt b.
+Proof.
+  intros Hb. induction a as [|x a IH]; [reflexivity|].
+  cbn [app]. destruct (a ++ b) eqn:E.
+  - destruct a; [simpl in E; congruence|discriminate].
+  - exact IH.
+Qed.
+
+Lemma ends_ok_app a b : ends_ok b = true -> ends_ok (a ++ b) = true.
+Proof.
+  unfold ends_ok. intros H. rewrite last_opt_app; [assumption|].
+  intros ->. discriminate.
+Qed.
+
+Lemma last_opt_snoc {A} (s : list A) c : last_opt s = Some c -> exists y, s = y ++ [c].
+Proof.
+  induction s as [|x s IH]; [discriminate|].
+  destruct s as [|x' s'].
+  - intros [= ->]. now exists [].
+  - intros H. destruct (IH H) as [y Hy]. exists (x :: y). simpl. now rewrite <- Hy.
+Qed.
+
+Lemma rstrip_lf_ends_ok s : ends_ok s = true -> rstrip_by (N.eqb LF) s = s.
+Proof.
+  unfold ends_ok. destruct (last_opt s) as [c|] eqn:E; [|discriminate]. intros Hc.
+  destruct (last_opt_snoc s c E) as [y ->]. unfold rstrip_by.
+  apply rdropwhile_app_keep. destruct (N.eqb_spec LF c) as [<-|]; [|reflexivity].
+  discriminate Hc.
+Qed.
+
+Lemma token_ends_ok t : token_ok t = true -> ends_ok t = true.
+Proof.
+  unfold token_ok, ends_ok. intros H. apply andb_true_iff in H. destruct H as [Hne H].
+  destruct (last_opt t) as [c|] eqn:E.
+  - destruct (last_opt_snoc t c E) as [y ->]. rewrite forallb_app in H.
+    apply andb_true_iff in H. destruct H as [_ H]. simpl in H. now rewrite andb_true_r in H.
+  - destruct t as [|x t]; [discriminate|]. exfalso. clear -E.
+    revert x E. induction t as [|x' t IH]; intros x E; [discriminate|]. exact (IH x' E).
+Qed.
+
+Lemma spec_col_ends_ok w x t : token_ok t = true -> ends_ok (spec_col w x t) = true.
+Proof.
+  intros H. unfold spec_col. destruct w; [|now apply token_ends_ok].
+  destruct (str_eqb x spec_size_name); [|now apply token_ends_ok].
+  unfold rjust. apply ends_ok_app. now apply token_ends_ok.
+Qed.
+
+Lemma spec_line_cons w x order t row :
+  spec_line w (x :: order) (t :: row) = (SP :: spec_col w x t) ++ spec_line w order row.
+Proof. reflexivity. Qed.
+
+Lemma spec_line_ends_ok w : forall order row,
+  order <> [] -> length row = length order -> forallb token_ok row = true ->
+  ends_ok (spec_line w order row) = true.
+Proof.
+  induction order as [|x order IH]; intros row Hne Hlen Htok; [congruence|].
+  destruct row as [|t row]; [discriminate|].
+  simpl in Hlen, Htok. apply andb_true_iff in Htok. destruct Htok as [Ht Htok].
+  rewrite spec_line_cons. destruct order as [|x' order'].
+  - destruct row; [|discriminate]. unfold spec_line. simpl. rewrite app_nil_r.
+    change (SP :: spec_col w x t) with ([SP] ++ spec_col w x t).
+    apply ends_ok_app. now apply spec_col_ends_ok.
+  - apply ends_ok_app. apply IH; [discriminate|lia|assumption].
+Qed.
+
+Lemma shift_lf : forall bs : list str,
+  LF :: concat (map (fun b => b ++ [LF]) bs) = concat (map (fun b => LF :: b) bs) ++ [LF].
+Proof.
+  induction bs as [|b bs IH]; [reflexivity|].
+  cbn [map concat]. rewrite <- !app_assoc. cbn [app]. f_equal. f_equal. exact IH.
+Qed.
+
+Lemma value_ends_ok w order : forall row rows,
+  order <> [] -> forallb (row_ok order) (row :: rows) = true ->
+  ends_ok (concat (map (fun r => LF :: spec_line w order r) (row :: rows))) = true.
+Proof.
+  intros row rows Hne. revert row. induction rows as [|r2 rows IH]; intros row H.
+  - cbn [map concat]. rewrite app_nil_r.
+    simpl in H. rewrite andb_true_r in H. destruct (row_ok_parts _ _ H) as [Hl [Ht _]].
+    change (LF :: spec_line w order row) with ([LF] ++ spec_line w order row).
+    apply ends_ok_app. now apply spec_line_ends_ok.
+  - cbn [forallb] in H. apply andb_true_iff in H. destruct H as [_ H].
+    change (concat (map (fun r => LF :: spec_line w order r) (row :: r2 :: rows)))
+      with ((LF :: spec_line w order row) ++ concat (map (fun r => LF :: spec_line w order r) (r2 :: rows))).
+    apply ends_ok_app. now apply IH.
+Qed.
+
+(** The width the model uses is the documented one. *)
+Lemma width_agrees c b ci k order row rows :
+  In (k, order) (table_of c) ->
+  forallb (row_ok order) (row :: rows) = true ->
+  option_map (fun w => w (Multi (spec_records order (row :: rows)))) (width_fun c b ci)
+  = option_map N.of_nat (spec_width c b order (row :: rows)).
+Proof.
+  intros Hin Hrows.
+  destruct (table_entry_ok c k order Hin) as [_ [Hok Hsz]].
+  destruct (order_ok_parts order Hok) as [Hnd [_ Hse]].
+  assert (Hlens : forallb (fun r => (length r =? length order)%nat) (row :: rows) = true).
+  { rewrite forallb_forall in *. intros r Hr. specialize (Hrows r Hr).
+    destruct (row_ok_parts _ _ Hrows) as [-> _]. apply Nat.eqb_refl. }
+  assert (HW : ffl_kind c <> None ->
+               W ci (Multi (spec_records order (row :: rows)))
+               = N.of_nat (longest (sizes_of order (row :: rows)))).
+  { intros Hk. unfold W. rewrite size_field_length_rows; auto. }
+  unfold width_fun, spec_width, width_rule_of.
+  destruct c; cbn [ffl_kind option_map] in *; try reflexivity.
+  - rewrite HW by discriminate. reflexivity.
+  - destruct b; cbn [option_map]; [reflexivity|]. rewrite HW by discriminate. reflexivity.
+Qed.
+
+Lemma lookup_in_keys c k order :
+  lookup_exact k (table_of c) = Some order -> In k (map fst (table_of c)).
+Proof. intros H. apply table_lookup_in in H. now apply (in_map fst) in H. Qed.
+
+(** [get_as_string] on a structured field holding complete records of
+    whitespace-free tokens is the documented value text. *)
+Lemma get_as_string_rows c b ci p key order row rows :
+  lookup_exact (ascii_lower key) (table_of c) = Some order ->
+  para_get key p = Some (Multi (spec_records order (row :: rows))) ->
+  forallb (row_ok order) (row :: rows) = true ->
+  sized_ok c ci p ->
+  get_as_string c b ci p key = Ok (spec_value c b order (row :: rows)).
+Proof.
+  intros Hlook Hget Hrows Hsized.
+  pose proof (table_lookup_in _ _ _ Hlook) as Hin.
+  destruct (table_entry_ok c _ order Hin) as [_ [Hok _]].
+  destruct (order_ok_parts order Hok) as [Hnd [Hne _]].
+  unfold get_as_string. rewrite Hlook, Hget.
+  rewrite (fixed_field_lengths_model c b ci p Hsized). cbn [bind].
+  rewrite (ffl_model_lookup c b ci p (ascii_lower key) (Multi (spec_records order (row :: rows)))
+             (lookup_in_keys _ _ _ Hlook))
+    by (rewrite para_get_lower; exact Hget).
+  rewrite (width_agrees c b ci _ order row rows Hin Hrows).
+  set (w := spec_width c b order (row :: rows)).
+  unfold spec_records. rewrite map_map.
+  rewrite (mapM_map_ok _ _ (fun r => spec_line w order r ++ [LF])).
+  - cbn [bind]. unfold spec_value. fold w.
+    change ([LF] ++ concat (map (fun r => spec_line w order r ++ [LF]) (row :: rows)))
+      with (LF :: concat (map (fun b => b ++ [LF]) (map (spec_line w order) (row :: rows)))
+            ) at 1 || idtac.
+    rewrite <- (map_map (spec_line w order) (fun b => b ++ [LF])).
+    cbn [app]. rewrite shift_lf. rewrite map_map.
+    unfold rstrip_by. rewrite rdropwhile_app_drop by reflexivity.
+    f_equal. apply rstrip_lf_ends_ok. now apply value_ends_ok.
+  - intros r Hr. rewrite forallb_forall in Hrows. specialize (Hrows r Hr).
+    destruct (row_ok_parts _ _ Hrows) as [Hl [_ Hlf]].
+    rewrite fmt_item_row by assumption. f_equal. f_equal. unfold spec_line. f_equal.
+    apply map_ext. intros [x t]. cbn [fst snd]. now rewrite col_spec.
+Qed.
+
+(** ** From the property's domain to the model's paragraph *)
+
+Lemma combine_fst_snd {A B} (r : list (A * B)) : combine (map fst r) (map snd r) = r.
+Proof. induction r as [|[a b] r IH]; [reflexivity|]. simpl. now rewrite IH. Qed.
+
+Lemma spec_order_is_lookup c key :
+  spec_order c key = lookup_exact (ascii_lower key) (table_of c).
+Proof. unfold spec_order. destruct c; reflexivity. Qed.
+
+Definition rec_in_domain (order : list str) (r : record) : bool :=
+  list_eqb str_eqb (map fst r) order && forallb token_ok (map snd r).
+
+Lemma rec_in_domain_inv order r :
+  rec_in_domain order r = true ->
+  r = combine order (map snd r) /\ row_ok order (map snd r) = true.
+Proof.
+  unfold rec_in_domain, row_ok. intros H. apply andb_true_iff in H. destruct H as [H1 H2].
+  apply strs_eqb_eq in H1. split.
+  - rewrite <- H1. symmetry. apply combine_fst_snd.
+  - rewrite H2, andb_true_r. apply Nat.eqb_eq. rewrite <- H1. now rewrite !map_length.
+Qed.
+
+Lemma recs_in_domain_inv order rs :
+  forallb (rec_in_domain order) rs = true ->
+  rs = spec_records order (map (map snd) rs)
+  /\ forallb (row_ok order) (map (map snd) rs) = true.
+Proof.
+  induction rs as [|r rs IH]; intros H; [split; reflexivity|].
+  cbn [forallb] in H. apply andb_true_iff in H. destruct H as [Hr H].
+  destruct (rec_in_domain_inv _ _ Hr) as [E1 E2]. destruct (IH H) as [E3 E4].
+  split.
+  - unfold spec_records in *. cbn [map]. now rewrite <- E1, <- E3.
+  - cbn [map forallb]. now rewrite E2, E4.
+Qed.
+
+Inductive entry_shape (c : cls) (key : str) (v : fvalue) (sv : sval) : Prop :=
+| ShapeRows order row rows :
+    lookup_exact (ascii_lower key) (table_of c) = Some order ->
+    v = Multi (spec_records order (row :: rows)) ->
+    forallb (row_ok order) (row :: rows) = true ->
+    sv = SRows (row :: rows) ->
+    entry_shape c key v sv
+| ShapeText s :
+    lookup_exact (ascii_lower key) (table_of c) = None ->
+    v = Plain s -> sv = SText s ->
+    entry_shape c key v sv.
+
+Lemma sval_of_inv strict c key v sv :
+  sval_of strict c key v = Some sv -> entry_shape c key v sv.
+Proof.
+  unfold sval_of. rewrite spec_order_is_lookup.
+  destruct (lookup_exact (ascii_lower key) (table_of c)) as [order|] eqn:E.
+  - destruct v as [s|r|[|r rs]]; try discriminate.
+    change (forallb (fun r0 : list (str * str) =>
+              list_eqb str_eqb (map fst r0) order && forallb token_ok (map snd r0)) (r :: rs))
+      with (forallb (rec_in_domain order) (r :: rs)).
+    destruct (forallb (rec_in_domain order) (r :: rs)) eqn:F; [|discriminate].
+    intros [= <-]. destruct (recs_in_domain_inv _ _ F) as [E1 E2].
+    cbn [map] in *. eapply ShapeRows; eauto. now f_equal.
+  - destruct v as [s|r|rs]; try discriminate.
+    destruct (negb strict || _); [|discriminate]. intros [= <-].
+    eapply ShapeText; eauto.
+Qed.
+
+Lemma spara_of_cons strict c key v p sp :
+  spara_of strict c ((key, v) :: p) = Some sp ->
+  exists sv sp', sval_of strict c key v = Some sv /\ spara_of strict c p = Some sp'
+                 /\ sp = (key, sv) :: sp'.
+Proof.
+  cbn [spara_of]. destruct (sval_of strict c key v) as [sv|]; [|discriminate].
+  destruct (spara_of strict c p) as [sp'|]; [|discriminate].
+  intros [= <-]. eauto.
+Qed.
+
+Lemma spara_of_in strict c : forall p sp key v,
+  spara_of strict c p = Some sp -> In (key, v) p ->
+  exists sv, sval_of strict c key v = Some sv.
+Proof.
+  induction p as [|[k0 v0] p IH]; intros sp key v H Hin; [contradiction|].
+  destruct (spara_of_cons _ _ _ _ _ _ H) as [sv [sp' [H1 [H2 _]]]].
+  destruct Hin as [[= -> ->]|Hin]; [eauto|]. eapply IH; eauto.
+Qed.
+
+Lemma para_get_in k : forall p v,
+  para_get k p = Some v -> exists key', In (key', v) p /\ key_eqb true key' k = true.
+Proof.
+  induction p as [|[k0 v0] p IH]; intros v H; [discriminate|].
+  cbn [para_get] in H. destruct (key_eqb true k0 k) eqn:E.
+  - injection H as <-. exists k0. split; [now left|assumption].
+  - destruct (IH v H) as [key' [Hin Hk]]. exists key'. split; [now right|assumption].
+Qed.
+
+Lemma lookup_exact_some_of_in {A} k (l : list (str * A)) :
+  In k (map fst l) -> exists a, lookup_exact k l = Some a.
+Proof.
+  induction l as [|[k0 a0] l IH]; [contradiction|].
+  cbn [map fst lookup_exact]. intros [->|Hin].
+  - rewrite str_eqb_refl. eauto.
+  - destruct (str_eqb k0 k); eauto.
+Qed.
+
+(** a paragraph of the domain never makes [_fixed_field_lengths] fail *)
+Lemma in_domain_sized strict c ci p sp :
+  spara_of strict c p = Some sp -> sized_ok c ci p.
+Proof.
+  intros Hsp Hffl k v Hk Hget.
+  destruct (para_get_in _ _ _ Hget) as [key' [Hin Heq]].
+  destruct (spara_of_in _ _ _ _ _ _ Hsp Hin) as [sv Hsv].
+  destruct (lookup_exact_some_of_in _ _ Hk) as [order Hlook].
+  pose proof (table_lookup_in _ _ _ Hlook) as Hino.
+  destruct (table_entry_ok c k order Hino) as [Hlow [Hok Hsz]].
+  cbn [key_eqb] in Heq. apply str_eqb_eq in Heq. rewrite Hlow in Heq.
+  destruct (sval_of_inv _ _ _ _ _ Hsv) as [order' row rows Hl Hv Hrows _|s Hl _ _];
+    rewrite Heq in Hl; [|congruence].
+  assert (order' = order) as -> by congruence.
+  destruct (order_ok_parts order Hok) as [Hnd [_ Hse]].
+  subst v. split; [reflexivity|].
+  rewrite size_field_length_rows; auto.
+  rewrite forallb_forall in *. intros r Hr. specialize (Hrows r Hr).
+  destruct (row_ok_parts _ _ Hrows) as [-> _]. apply Nat.eqb_refl.
+Qed.
+
+Lemma para_get_distinct : forall p k v,
+  distinct_keys (map fst p) = true -> In (k, v) p -> para_get k p = Some v.
+Proof.
+  induction p as [|[k0 v0] p IH]; intros k v Hd Hin; [contradiction|].
+  cbn [map fst distinct_keys] in Hd. apply andb_true_iff in Hd. destruct Hd as [Hk0 Hd].
+  cbn [para_get]. destruct Hin as [[= -> ->]|Hin].
+  - now rewrite key_eqb_refl.
+  - assert (E : key_eqb true k0 k = false).
+    { cbn [key_eqb]. apply negb_true_iff in Hk0.
+      destruct (str_eqb (ascii_lower k0) (ascii_lower k)) eqn:E; [|reflexivity].
+      apply str_eqb_eq in E. exfalso.
+      assert (X : existsb (fun k' => str_eqb (ascii_lower k') (ascii_lower k0)) (map fst p) = true).
+      { apply existsb_exists. exists k. split; [now apply (in_map fst) in Hin|].
+        rewrite E. apply str_eqb_refl. }
+      congruence. }
+    rewrite E. now apply IH.
+Qed.
+
+Lemma spec_value_head c b order row rows :
+  exists rest, spec_value c b order (row :: rows) = LF :: rest.
+Proof. unfold spec_value. cbn [map concat app]. eauto. Qed.
+
+(** One entry of the dump. *)
+Lemma dump_entry strict c b ci P key v sv :
+  sized_ok c ci P -> para_get key P = Some v ->
+  sval_of strict c key v = Some sv ->
+  (do s <- get_as_string c b ci P key; Ok (entry key s)) = Ok (spec_entry c b (key, sv)).
+Proof.
+  intros Hsized Hget Hsv.
+  destruct (sval_of_inv _ _ _ _ _ Hsv) as [order row rows Hl Hv Hrows Hs|s Hl Hv Hs]; subst v sv.
+  - rewrite (get_as_string_rows c b ci P key order row rows) by assumption.
+    cbn [bind]. unfold spec_entry. cbn [fst snd]. rewrite spec_order_is_lookup, Hl.
+    destruct (spec_value_head c b order row rows) as [rest ->].
+    unfold entry. now rewrite N.eqb_refl.
+  - unfold get_as_string. rewrite Hl, Hget. cbn [bind]. unfold spec_entry, entry. cbn [fst snd].
+    destruct s as [|ch s]; [reflexivity|]. destruct (ch =? LF)%N; reflexivity.
+Qed.
+
+(** [dump] of a paragraph of the domain is the documented text. *)
+Lemma dump_para_spec c b ci p sp :
+  in_domain c p = Some sp -> dump_para c b ci p = Ok (spec_dump c b sp).
+Proof.
+  unfold in_domain. destruct (distinct_keys (map fst p)) eqn:Hd; [|discriminate]. intros Hsp.
+  pose proof (in_domain_sized true c ci p sp Hsp) as Hsized.
+  unfold dump_para, spec_dump.
+  assert (G : forall p' sp', spara_of true c p' = Some sp' ->
+              (forall kv, In kv p' -> In kv p) ->
+              mapM (fun kv => do v <- get_as_string c b ci p (fst kv); Ok (entry (fst kv) v)) p'
+              = Ok (map (spec_entry c b) sp')).
+  { induction p' as [|[key v] p' IH]; intros sp' Hsp' Hsub.
+    - injection Hsp' as <-. reflexivity.
+    - destruct (spara_of_cons _ _ _ _ _ _ Hsp') as [sv [sp'' [H1 [H2 ->]]]].
+      cbn [mapM map fst].
+      rewrite (dump_entry true c b ci p key v sv Hsized); [|
+        apply para_get_distinct; [assumption|apply Hsub; now left]|assumption].
+      cbn [bind]. rewrite (IH sp'' H2); [reflexivity|].
+      intros kv Hkv. apply Hsub. now right. }
+  rewrite (G p sp Hsp); [reflexivity|auto].
+Qed.
+
+(** * 6. [dump] never fails on a paragraph whose PRESENT fields are dumpable *)
+
+(** the record has every sub-field of [order], none containing a line feed *)
+Definition rec_complete (ci : bool) (order : list str) (r : record) : bool :=
+  forallb (fun x => match rec_get ci x r with
+                    | Ok v => negb (mem_char LF v)
+                    | Err _ => false
+                    end) order.
+
+Definition val_dumpable (ci : bool) (order : list str) (v : fvalue) : bool :=
+  match v with
+  | Multi (r :: rs) => forallb (rec_complete ci order) (r :: rs)
+  | _ => false
+  end.
+
+(** Conditions on the entries that ARE there; nothing is asked about the
+    structured fields of the class that are absent. *)
+Definition entry_dumpable (c : cls) (ci : bool) (kv : str * fvalue) : bool :=
+  match lookup_exact (ascii_lower (fst kv)) (table_of c) with
+  | Some order => val_dumpable ci order (snd kv)
+  | None => match snd kv with Plain _ => true | _ => false end
+  end.
+
+Definition para_dumpable (c : cls) (ci : bool) (p : para) : bool :=
+  forallb (entry_dumpable c ci) p.
+
+Lemma mapM_length {A B} (f : A -> result B) : forall l bs,
+  mapM f l = Ok bs -> length bs = length l.
+Proof.
+  induction l as [|a l IH]; intros bs H.
+  - injection H as <-. reflexivity.
+  - cbn [mapM] in H. destruct (f a); [|discriminate]. cbn [bind] in H.
+    destruct (mapM f l) as [bs'|]; [|discriminate]. injection H as <-.
+    simpl. f_equal. now apply IH.
+Qed.
+
+Lemma has_size_in order : has_size order = true -> In mv_size_key order.
+Proof.
+  unfold has_size. intros H. apply existsb_exists in H. destruct H as [x [Hin Hx]].
+  apply str_eqb_eq in Hx. now subst.
+Qed.
+
+Lemma size_field_length_complete ci order r rs :
+  has_size order = true -> forallb (rec_complete ci order) (r :: rs) = true ->
+  is_ok (size_field_length ci (Multi (r :: rs))) = true.
+Proof.
+  intros Hs Hc. unfold size_field_length. cbn [items_iter].
+  assert (G : is_ok (mapM (fun it => do s <- item_get ci mv_size_key it; Ok (N.of_nat (length s)))
+                          (map RecItem (r :: rs))) = true).
+  { apply mapM_is_ok. intros it Hit. apply in_map_iff in Hit. destruct Hit as [r0 [<- Hr0]].
+    rewrite forallb_forall in Hc. specialize (Hc r0 Hr0). unfold rec_complete in Hc.
+    rewrite forallb_forall in Hc. specialize (Hc _ (has_size_in _ Hs)).
+    cbn [item_get]. destruct (rec_get ci mv_size_key r0); [reflexivity|discriminate]. }
+  destruct (is_ok_exists _ G) as [ls E]. rewrite E. cbn [bind].
+  apply mapM_length in E. destruct ls; [discriminate|reflexivity].
+Qed.
+
+Lemma dumpable_entry_of_get c ci p k v :
+  para_dumpable c ci p = true -> para_get k p = Some v ->
+  exists key', ascii_lower key' = ascii_lower k /\ entry_dumpable c ci (key', v) = true.
+Proof.
+  intros Hd Hget. destruct (para_get_in _ _ _ Hget) as [key' [Hin Heq]].
+  unfold para_dumpable in Hd. rewrite forallb_forall in Hd.
+  exists key'. split; [|now apply Hd].
+  cbn [key_eqb] in Heq. now apply str_eqb_eq in Heq.
+Qed.
+
+Lemma dumpable_sized c ci p : para_dumpable c ci p = true -> sized_ok c ci p.
+Proof.
+  intros Hd Hffl k v Hk Hget.
+  destruct (dumpable_entry_of_get _ _ _ _ _ Hd Hget) as [key' [Hlow He]].
+  destruct (lookup_exact_some_of_in _ _ Hk) as [order Hlook].
+  pose proof (table_lookup_in _ _ _ Hlook) as Hino.
+  destruct (table_entry_ok c k order Hino) as [Hlk [_ Hsz]].
+  unfold entry_dumpable in He. cbn [fst snd] in He. rewrite Hlow, Hlk, Hlook in He.
+  destruct v as [s|r|[|r rs]]; try discriminate. split; [reflexivity|].
+  apply (size_field_length_complete ci order); auto.
+Qed.
+
+Lemma fmt_item_complete ci order len r :
+  rec_complete ci order r = true -> is_ok (fmt_item ci order len (RecItem r)) = true.
+Proof.
+  intros Hc. unfold fmt_item.
+  assert (G : is_ok (mapM (fmt_col ci len (RecItem r)) order) = true).
+  { apply mapM_is_ok. intros x Hx. unfold rec_complete in Hc. rewrite forallb_forall in Hc.
+    specialize (Hc x Hx). unfold fmt_col. cbn [item_get].
+    destruct (rec_get ci x r) as [raw|]; [|discriminate]. cbn [bind].
+    fold (col len x raw). rewrite mem_char_col. apply negb_true_iff in Hc. now rewrite Hc. }
+  destruct (is_ok_exists _ G) as [cols ->]. reflexivity.
+Qed.
+
+Lemma get_as_string_total c b ci p key v :
+  para_dumpable c ci p = true -> para_get key p = Some v ->
+  is_ok (get_as_string c b ci p key) = true.
+Proof.
+  intros Hd Hget.
+  destruct (dumpable_entry_of_get _ _ _ _ _ Hd Hget) as [key' [Hlow He]].
+  unfold entry_dumpable in He. cbn [fst snd] in He. rewrite Hlow in He.
+  unfold get_as_string. rewrite Hget.
+  destruct (lookup_exact (ascii_lower key) (table_of c)) as [order|].
+  - destruct v as [s|r|[|r rs]]; try discriminate. cbn [val_dumpable] in He.
+    rewrite (fixed_field_lengths_model c b ci p (dumpable_sized _ _ _ Hd)). cbn [bind].
+    match goal with |- context [mapM ?f ?l] =>
+      assert (G : is_ok (mapM f l) = true) end.
+    { apply mapM_is_ok. intros it Hit. apply in_map_iff in Hit. destruct Hit as [r0 [<- Hr0]].
+      apply fmt_item_complete. rewrite forallb_forall in He. now apply He. }
+    destruct (is_ok_exists _ G) as [lines ->]. reflexivity.
+  - destruct v; [reflexivity|discriminate|discriminate].
+Qed.
+
+Lemma para_get_some_of_in : forall p k v, In (k, v) p -> exists v', para_get k p = Some v'.
+Proof.
+  induction p as [|[k0 v0] p IH]; intros k v Hin; [contradiction|].
+  cbn [para_get]. destruct (key_eqb true k0 k) eqn:E; [eauto|].
+  destruct Hin as [[= -> ->]|Hin]; [now rewrite key_eqb_refl in E|]. eapply IH; eauto.
+Qed.
+
+Lemma dump_para_total c b ci p :
+  para_dumpable c ci p = true -> is_ok (dump_para c b ci p) = true.
+Proof.
+  intros Hd. unfold dump_para.
+  match goal with |- context [mapM ?f ?l] => assert (G : is_ok (mapM f l) = true) end.
+  { apply mapM_is_ok. intros [k v] Hin. cbn [fst].
+    destruct (para_get_some_of_in _ _ _ Hin) as [v' Hget].
+    pose proof (get_as_string_total c b ci p k v' Hd Hget) as H.
+    destruct (get_as_string c b ci p k); [reflexivity|discriminate]. }
+  destruct (is_ok_exists _ G) as [es ->]. reflexivity.
+Qed.
+
+(** * 7. Parsing the documented text gives the records back *)
+
+(** ** str.splitlines on LF-introduced, boundary-free lines *)
+Section Splitlines.
+Variable islb : N -> bool.
+Hypothesis islb_lf : islb LF = true.
+
+Lemma splitlines_aux_free : forall l cur rest,
+  forallb (fun ch => negb (islb ch)) l = true ->
+  splitlines_aux islb false (l ++ rest) cur = splitlines_aux islb false rest (rev l ++ cur).
+Proof.
+  induction l as [|x l IH]; intros cur rest H; [reflexivity|].
+  cbn [forallb] in H. apply andb_true_iff in H. destruct H as [Hx H].
+  apply negb_true_iff in Hx. cbn [app splitlines_aux]. rewrite Hx.
+  rewrite IH by assumption. cbn [rev]. now rewrite <- app_assoc.
+Qed.
+
+Lemma splitlines_aux_lf cur s :
+  s <> [] -> splitlines_aux islb false (LF :: s) cur = rev cur :: splitlines_aux islb false s [].
+Proof.
+  intros Hs. destruct s as [|y s]; [congruence|].
+  cbn [splitlines_aux]. rewrite islb_lf. cbn [N.eqb LF Pos.eqb andb]. now rewrite app_nil_r.
+Qed.
+
+Lemma splitlines_aux_lines : forall ls cur,
+  ls <> [] ->
+  forallb (forallb (fun ch => negb (islb ch))) ls = true ->
+  forallb nonempty ls = true ->
+  splitlines_aux islb false (concat (map (fun l => LF :: l) ls)) cur = rev cur :: ls.
+Proof.
+  induction ls as [|l ls IH]; intros cur Hne Hfree Hnon; [congruence|].
+  cbn [forallb] in Hfree, Hnon.
+  apply andb_true_iff in Hfree. destruct Hfree as [Hl Hfree].
+  apply andb_true_iff in Hnon. destruct Hnon as [Hln Hnon].
+  cbn [map concat app].
+  rewrite splitlines_aux_lf by (destruct l; [discriminate|discriminate]).
+  f_equal. rewrite splitlines_aux_free by assumption. rewrite app_nil_r.
+  destruct ls as [|l2 ls].
+  - cbn [map concat splitlines_aux]. destruct (rev l) eqn:E.
+    + destruct l; [discriminate|]. apply (f_equal (@length N)) in E.
+      rewrite rev_length in E. discriminate.
+    + rewrite <- E. now rewrite rev_involutive.
+  - rewrite IH; [now rewrite rev_involutive|discriminate|assumption|assumption].
+Qed.
+End Splitlines.
+
+(** ** str.split() on blank-introduced tokens *)
+Section SplitWs.
+Variable isspace : N -> bool.
+
+Lemma split_ws_aux_pad : forall pad s,
+  forallb isspace pad = true -> split_ws_aux isspace (pad ++ s) [] = split_ws_aux isspace s [].
+Proof.
+  induction pad as [|x pad IH]; intros s H; [reflexivity|].
+  cbn [forallb] in H. apply andb_true_iff in H. destruct H as [Hx H].
+  cbn [app split_ws_aux]. rewrite Hx. now apply IH.
+Qed.
+
+Lemma split_ws_aux_tok : forall t cur rest,
+  forallb (fun ch => negb (isspace ch)) t = true ->
+  split_ws_aux isspace (t ++ rest) cur = split_ws_aux isspace rest (rev t ++ cur).
+Proof.
+  induction t as [|x t IH]; intros cur rest H; [reflexivity|].
+  cbn [forallb] in H. apply andb_true_iff in H. destruct H as [Hx H].
+  apply negb_true_iff in Hx. cbn [app split_ws_aux]. rewrite Hx.
+  rewrite IH by assumption. cbn [rev]. now rewrite <- app_assoc.
+Qed.
+
+(** a blank-free, non-empty token followed by the end or by a blank *)
+Lemma split_ws_aux_word pad t rest :
+  forallb isspace pad = true ->
+  t <> [] -> forallb (fun ch => negb (isspace ch)) t = true ->
+  match rest with [] => True | ch :: _ => isspace ch = true end ->
+  split_ws_aux isspace (pad ++ t ++ rest) [] = t :: split_ws_aux isspace rest [].
+Proof.
+  intros Hpad Hne Ht Hrest. rewrite split_ws_aux_pad by assumption.
+  rewrite split_ws_aux_tok by assumption. rewrite app_nil_r.
+  assert (Hr : rev t <> []).
+  { intros E. apply (f_equal (@length N)) in E. rewrite rev_length in E.
+    destruct t; [congruence|discriminate]. }
+  destruct rest as [|ch rest].
+  - cbn [split_ws_aux]. destruct (rev t) eqn:E; [congruence|].
+    rewrite <- E. now rewrite rev_involutive.
+  - cbn [split_ws_aux]. rewrite Hrest. destruct (rev t) eqn:E; [congruence|].
+    rewrite <- E. now rewrite rev_involutive.
+Qed.
+End SplitWs.
+
+Lemma sp_is_space : py_isspace SP = true.
+Proof. vm_compute. reflexivity. Qed.
+Lemma lf_is_linebreak : py_islinebreak LF = true.
+Proof. vm_compute. reflexivity. Qed.
+Lemma sp_not_linebreak : py_islinebreak SP = false.
+Proof. vm_compute. reflexivity. Qed.
+
+Lemma token_ok_parts t :
+  token_ok t = true -> t <> [] /\ forallb (fun ch => negb (py_isspace ch)) t = true.
+Proof.
+  unfold token_ok. intros H. apply andb_true_iff in H. destruct H as [H1 H2].
+  split; [|assumption]. destruct t; [discriminate|congruence].
+Qed.
+
+(** the column text is blanks followed by the token *)
+Lemma spec_col_shape w x t : exists pad,
+  spec_col w x t = pad ++ t /\ forallb py_isspace pad = true
+  /\ forallb (fun ch => negb (py_islinebreak ch)) pad = true.
+Proof.
+  unfold spec_col. destruct w as [n|]; [|exists []; auto].
+  destruct (str_eqb x spec_size_name); [|exists []; auto].
+  exists (repeat SP (n - length t)). unfold rjust. repeat split.
+  - apply forallb_repeat. exact sp_is_space.
+  - apply forallb_repeat. now rewrite sp_not_linebreak.
+Qed.
+
+Lemma spec_line_head w order row :
+  match spec_line w order row with [] => True | ch :: _ => py_isspace ch = true end.
+Proof.
+  destruct order as [|x order]; [exact I|]. destruct row as [|t row]; [exact I|].
+  rewrite spec_line_cons. cbn [app]. exact sp_is_space.
+Qed.
+
+Lemma split_ws_line w : forall order row,
+  length row = length order -> forallb token_ok row = true ->
+  split_ws py_isspace (spec_line w order row) = row.
+Proof.
+  unfold split_ws.
+  induction order as [|x order IH]; intros row Hlen Htok.
+  - destruct row; [reflexivity|discriminate].
+  - destruct row as [|t row]; [discriminate|].
+    simpl in Hlen. cbn [forallb] in Htok. apply andb_true_iff in Htok. destruct Htok as [Ht Htok].
+    rewrite spec_line_cons. destruct (spec_col_shape w x t) as [pad [-> [Hpad _]]].
+    destruct (token_ok_parts t Ht) as [Hne Hfree].
+    replace ((SP :: pad ++ t) ++ spec_line w order row)
+      with ((SP :: pad) ++ t ++ spec_line w order row)
+      by (cbn [app]; now rewrite <- app_assoc).
+    rewrite split_ws_aux_word; auto.
+    + f_equal. apply IH; [lia|assumption].
+    + apply spec_line_head.
+Qed.
+
+Lemma token_lb_free t :
+  token_ok t = true -> forallb (fun ch => negb (py_islinebreak ch)) t = true.
+Proof.
+  intros H. destruct (token_ok_parts t H) as [_ Hf].
+  rewrite forallb_forall in *. intros ch Hch. specialize (Hf ch Hch).
+  apply negb_true_iff in Hf. apply negb_true_iff.
+  destruct (py_islinebreak ch) eqn:E; [|reflexivity].
+  apply linebreak_is_space in E. congruence.
+Qed.
+
+Lemma spec_line_lb_free w : forall order row,
+  forallb token_ok row = true ->
+  forallb (fun ch => negb (py_islinebreak ch)) (spec_line w order row) = true.
+Proof.
+  induction order as [|x order IH]; intros row Htok; [reflexivity|].
+  destruct row as [|t row]; [reflexivity|].
+  cbn [forallb] in Htok. apply andb_true_iff in Htok. destruct Htok as [Ht Htok].
+  rewrite spec_line_cons. destruct (spec_col_shape w x t) as [pad [-> [_ Hpad]]].
+  cbn [app forallb]. rewrite sp_not_linebreak. cbn [negb andb].
+  rewrite !forallb_app. rewrite Hpad, (token_lb_free t Ht). cbn [andb]. now apply IH.
+Qed.
+
+Lemma spec_line_nonempty w order row :
+  order <> [] -> length row = length order -> nonempty (spec_line w order row) = true.
+Proof.
+  intros Hne Hlen. destruct order as [|x order]; [congruence|].
+  destruct row as [|t row]; [discriminate|]. reflexivity.
+Qed.
+
+(** ** Deb822Dict(zip(fields, tokens)) *)
+Lemma rec_set_new k v : forall r,
+  forallb (fun kv => negb (key_eqb true (fst kv) k)) r = true ->
+  rec_set true k v r = r ++ [(k, v)].
+Proof.
+  induction r as [|[k' v'] r IH]; intros H; [reflexivity|].
+  cbn [forallb fst] in H. apply andb_true_iff in H. destruct H as [Hk H].
+  apply negb_true_iff in Hk. cbn [rec_set app]. rewrite Hk. now rewrite IH.
+Qed.
+
+Lemma rec_of_pairs_combine : forall order row acc,
+  nodup_ci order = true ->
+  (forall y, In y order -> forallb (fun kv => negb (key_eqb true (fst kv) y)) acc = true) ->
+  rec_of_pairs (combine order row) acc = acc ++ combine order row.
+Proof.
+  unfold rec_of_pairs.
+  induction order as [|x order IH]; intros row acc Hnd Hacc; [now rewrite app_nil_r|].
+  destruct row as [|t row]; [now rewrite app_nil_r|].
+  cbn [nodup_ci] in Hnd. apply andb_true_iff in Hnd. destruct Hnd as [Hx Hnd].
+  cbn [combine fold_left fst snd]. rewrite rec_set_new by (apply Hacc; now left).
+  rewrite IH; [now rewrite <- app_assoc|assumption|].
+  intros y Hy. rewrite forallb_app. rewrite Hacc by now right.
+  cbn [forallb fst andb]. rewrite forallb_forall in Hx. now rewrite (Hx y Hy).
+Qed.
+
+Lemma mk_record_combine order row :
+  nodup_ci order = true -> mk_record order row = combine order row.
+Proof.
+  intros Hnd. unfold mk_record. now rewrite rec_of_pairs_combine.
+Qed.
+
+Lemma filter_all {A} (f : A -> bool) l : forallb f l = true -> filter f l = l.
+Proof.
+  induction l as [|a l IH]; intros H; [reflexivity|].
+  cbn [forallb] in H. apply andb_true_iff in H. destruct H as [Ha H].
+  cbn [filter]. rewrite Ha. now rewrite IH.
+Qed.
+
+(** The round trip of one structured field. *)
+Lemma parse_spec_value c b order row rows :
+  order_ok order = true ->
+  forallb (row_ok order) (row :: rows) = true ->
+  mv_parse_field order (spec_value c b order (row :: rows))
+  = Multi (spec_records order (row :: rows)).
+Proof.
+  intros Hok Hrows. destruct (order_ok_parts order Hok) as [Hnd [Hne _]].
+  unfold mv_parse_field.
+  assert (Hm : mem_char LF (spec_value c b order (row :: rows)) = true).
+  { destruct (spec_value_head c b order row rows) as [rest ->].
+    unfold mem_char. cbn [existsb]. now rewrite N.eqb_refl. }
+  rewrite Hm. f_equal. unfold spec_value. set (w := spec_width c b order (row :: rows)).
+  rewrite <- (map_map (spec_line w order) (fun l => LF :: l)).
+  unfold splitlines.
+  rewrite (splitlines_aux_lines py_islinebreak lf_is_linebreak).
+  - cbn [rev filter nonempty]. 
+    assert (Hf : filter nonempty (map (spec_line w order) (row :: rows))
+                 = map (spec_line w order) (row :: rows)).
+    { apply filter_all. rewrite forallb_forall. intros l Hl.
+      apply in_map_iff in Hl. destruct Hl as [r [<- Hr]].
+      rewrite forallb_forall in Hrows. destruct (row_ok_parts _ _ (Hrows r Hr)) as [Hlen _].
+      now apply spec_line_nonempty. }
+    rewrite Hf. rewrite map_map. unfold spec_records. apply map_ext_in.
+    intros r Hr. rewrite forallb_forall in Hrows.
+    destruct (row_ok_parts _ _ (Hrows r Hr)) as [Hlen [Htok _]].
+    rewrite split_ws_line by assumption. now apply mk_record_combine.
+  - discriminate.
+  - rewrite forallb_forall. intros l Hl. apply in_map_iff in Hl. destruct Hl as [r [<- Hr]].
+    rewrite forallb_forall in Hrows. destruct (row_ok_parts _ _ (Hrows r Hr)) as [_ [Htok _]].
+    now apply spec_line_lb_free.
+  - rewrite forallb_forall. intros l Hl. apply in_map_iff in Hl. destruct Hl as [r [<- Hr]].
+    rewrite forallb_forall in Hrows. destruct (row_ok_parts _ _ (Hrows r Hr)) as [Hlen _].
+    now apply spec_line_nonempty.
+Qed.
+
+(** ** Parsing ANY stored text whose continuation lines each hold one value per
+       sub-field: every line becomes a record with the documented names *)
+
+Lemma lf_join_lines : forall lines : list str,
+  lines <> [] -> LF :: join [LF] lines = concat (map (fun l => LF :: l) lines).
+Proof.
+  induction lines as [|l lines IH]; intros Hne; [congruence|].
+  destruct lines as [|l2 lines].
+  - cbn. now rewrite app_nil_r.
+  - rewrite join_cons by discriminate. cbn [map concat app].
+    f_equal. f_equal. cbn [app] in IH. apply IH. discriminate.
+Qed.
+
+Lemma parse_spec_rows order contents rows :
+  nodup_ci order = true -> order <> [] ->
+  spec_rows order contents = Some rows ->
+  mv_parse_field order contents = Multi (spec_records order rows).
+Proof.
+  intros Hnd Hne. unfold spec_rows.
+  destruct contents as [|ch rest]; [discriminate|].
+  destruct (N.eqb_spec ch LF) as [->|]; [|discriminate].
+  set (lines := split_on LF rest).
+  destruct (forallb (fun l => negb (existsb py_islinebreak l)) lines) eqn:Hfree; [|discriminate].
+  destruct (forallb (fun r => (length r =? length order)%nat) (map (split_ws py_isspace) lines)) eqn:Hlen;
+    [|discriminate].
+  cbn [andb]. intros [= <-].
+  assert (Hc : LF :: rest = concat (map (fun l => LF :: l) lines)).
+  { rewrite <- lf_join_lines by apply split_on_nonempty.
+    unfold lines. now rewrite join_split_on. }
+  assert (Hnon : forallb nonempty lines = true).
+  { rewrite forallb_forall in *. intros l Hl.
+    specialize (Hlen (split_ws py_isspace l) (in_map _ _ _ Hl)).
+    apply Nat.eqb_eq in Hlen. destruct l; [|reflexivity].
+    cbn in Hlen. destruct order; [congruence|discriminate]. }
+  unfold mv_parse_field.
+  assert (Hm : mem_char LF (LF :: rest) = true).
+  { unfold mem_char. cbn [existsb]. now rewrite N.eqb_refl. }
+  rewrite Hm. f_equal. rewrite Hc. unfold splitlines.
+  rewrite (splitlines_aux_lines py_islinebreak lf_is_linebreak).
+  - cbn [rev filter nonempty]. rewrite (filter_all _ _ Hnon).
+    unfold spec_records. rewrite map_map. apply map_ext.
+    intros l. now apply mk_record_combine.
+  - apply split_on_nonempty.
+  - rewrite forallb_forall in *. intros l Hl. specialize (Hfree l Hl).
+    apply negb_true_iff in Hfree. rewrite forallb_forall. intros ch Hch.
+    apply negb_true_iff. destruct (py_islinebreak ch) eqn:E; [|reflexivity].
+    assert (X : existsb py_islinebreak l = true) by (apply existsb_exists; eauto). congruence.
+  - exact Hnon.
+Qed.
+
+(** * 8. The whole paragraph: [_multivalued.__init__] *)
+
+(** what [__init__] makes of one (key, raw value) pair *)
+Definition parse_entry (tbl : list (str * list str)) (kv : str * str) : str * fvalue :=
+  (fst kv, match lookup_exact (ascii_lower (fst kv)) tbl with
+           | Some fields => mv_parse_field fields (snd kv)
+           | None => Plain (snd kv)
+           end).
+
+Lemma lookup_exact_app_miss {A} k f (a : A) : forall l,
+  str_eqb f k = false -> lookup_exact k (l ++ [(f, a)]) = lookup_exact k l.
+Proof.
+  induction l as [|[k' a'] l IH]; intros H; cbn [app lookup_exact].
+  - now rewrite H.
+  - destruct (str_eqb k' k); [reflexivity|]. now apply IH.
+Qed.
+
+Lemma lookup_exact_app_hit {A} f (a : A) : forall l,
+  lookup_exact f l = None -> lookup_exact f (l ++ [(f, a)]) = Some a.
+Proof.
+  induction l as [|[k' a'] l IH]; intros H; cbn [app lookup_exact] in *.
+  - now rewrite str_eqb_refl.
+  - destruct (str_eqb k' f); [discriminate|]. now apply IH.
+Qed.
+
+Lemma mv_init_step_cons e p fe :
+  key_eqb true (fst e) (fst fe) = false ->
+  mv_init_step (Ok (e :: p)) fe
+  = match mv_init_step (Ok p) fe with Ok q => Ok (e :: q) | Err x => Err x end.
+Proof.
+  intros H. destruct e as [k v]. cbn [fst] in H.
+  unfold mv_init_step. cbn [bind para_get]. rewrite H.
+  destruct (para_get (fst fe) p) as [[c|r|rs]|]; try reflexivity.
+  cbn [para_set]. now rewrite H.
+Qed.
+
+Lemma parse_entry_miss done f fields kv :
+  str_eqb f (ascii_lower (fst kv)) = false ->
+  parse_entry (done ++ [(f, fields)]) kv = parse_entry done kv.
+Proof. intros H. unfold parse_entry. now rewrite lookup_exact_app_miss. Qed.
+
+Lemma mv_init_step_map done f fields : forall raw,
+  distinct_keys (map fst raw) = true ->
+  lookup_exact f done = None -> ascii_lower f = f ->
+  mv_init_step (Ok (map (parse_entry done) raw)) (f, fields)
+  = Ok (map (parse_entry (done ++ [(f, fields)])) raw).
+Proof.
+  induction raw as [|[k s] raw IH]; intros Hd Hnone Hlow; [reflexivity|].
+  cbn [map fst distinct_keys] in Hd. apply andb_true_iff in Hd. destruct Hd as [Hk Hd].
+  cbn [map]. destruct (key_eqb true k f) eqn:E.
+  - (* this is the field: the others cannot be, by distinctness *)
+    cbn [key_eqb] in E. rewrite Hlow in E. apply str_eqb_eq in E. subst f.
+    unfold mv_init_step. cbn [bind fst snd]. unfold parse_entry at 1. cbn [fst snd para_get key_eqb].
+    rewrite Hlow, str_eqb_refl, Hnone. unfold parse_entry at 1. cbn [para_set key_eqb fst snd].
+    rewrite Hlow, str_eqb_refl. f_equal. f_equal.
+    + unfold parse_entry. cbn [fst snd]. now rewrite lookup_exact_app_hit.
+    + apply map_ext_in. intros [k' s'] Hin. symmetry. apply parse_entry_miss. cbn [fst].
+      destruct (str_eqb (ascii_lower k) (ascii_lower k')) eqn:E2; [|reflexivity]. exfalso.
+      apply str_eqb_eq in E2. apply negb_true_iff in Hk.
+      assert (X : existsb (fun k0 => str_eqb (ascii_lower k0) (ascii_lower k)) (map fst raw) = true).
+      { apply existsb_exists. exists k'. split; [now apply (in_map fst) in Hin|].
+        rewrite E2. apply str_eqb_refl. }
+      congruence.
+  - rewrite mv_init_step_cons by (cbn [fst parse_entry]; exact E).
+    rewrite IH by assumption. f_equal. f_equal. symmetry. apply parse_entry_miss. cbn [fst].
+    cbn [key_eqb] in E. rewrite Hlow in E.
+    destruct (str_eqb f (ascii_lower k)) eqn:E2; [|reflexivity].
+    apply str_eqb_eq in E2. rewrite <- E2, str_eqb_refl in E. discriminate.
+Qed.
+
+Lemma mv_init_fold raw : forall rest done,
+  distinct_keys (map fst raw) = true ->
+  nodup_exact (map fst rest) = true ->
+  (forall f, In f (map fst rest) -> ascii_lower f = f /\ lookup_exact f done = None) ->
+  fold_left mv_init_step rest (Ok (map (parse_entry done) raw))
+  = Ok (map (parse_entry (done ++ rest)) raw).
+Proof.
+  induction rest as [|[f fields] rest IH]; intros done Hd Hnd Hf; [now rewrite app_nil_r|].
+  cbn [map fst nodup_exact] in Hnd. apply andb_true_iff in Hnd. destruct Hnd as [Hf0 Hnd].
+  destruct (Hf f (or_introl eq_refl)) as [Hlow Hnone].
+  cbn [fold_left]. rewrite mv_init_step_map by assumption.
+  rewrite IH; [now rewrite <- app_assoc|assumption|assumption|].
+  intros f' Hin'. destruct (Hf f' (or_intror Hin')) as [Hl' Hn']. split; [assumption|].
+  rewrite lookup_exact_app_miss; [assumption|].
+  destruct (str_eqb f f') eqn:E; [|reflexivity]. exfalso.
+  apply negb_true_iff in Hf0.
+  assert (X : existsb (str_eqb f) (map fst rest) = true) by (apply existsb_exists; eauto).
+  congruence.
+Qed.
+
+(** [K(text)] for every class: each structured field present is replaced by its
+    records, everything else (and the order of the fields) is kept. *)
+Lemma mv_init_map c raw :
+  distinct_keys (map fst raw) = true ->
+  mv_init (table_of c) raw = Ok (map (parse_entry (table_of c)) raw).
+Proof.
+  intros Hd. unfold mv_init.
+  rewrite (map_ext _ (parse_entry [])) by reflexivity.
+  pose proof (tables_ok c) as Hok. unfold table_ok in Hok.
+  apply andb_true_iff in Hok. destruct Hok as [Hents Hnd].
+  rewrite mv_init_fold; [reflexivity|assumption|assumption|].
+  intros f Hin. split; [|reflexivity].
+  apply in_map_iff in Hin. destruct Hin as [[f' o] [<- Hin]].
+  now destruct (table_entry_ok c f' o Hin) as [Hlow _].
+Qed.
+
+(** The raw (key, value) pairs of the documented text. *)
+Definition spec_raw (c : cls) (b : behav) (sp : spara) : list (str * str) :=
+  map (fun kv => (fst kv,
+                  match snd kv with
+                  | SRows rows => match spec_order c (fst kv) with
+                                  | Some order => spec_value c b order rows
+                                  | None => []
+                                  end
+                  | SText s => s
+                  end)) sp.
+
+Lemma in_domain_shapes strict c : forall p sp,
+  spara_of strict c p = Some sp ->
+  map fst sp = map fst p
+  /\ para_of_spara c sp = p
+  /\ forall b, map (parse_entry (table_of c)) (spec_raw c b sp) = p.
+Proof.
+  induction p as [|[key v] p IH]; intros sp H.
+  - injection H as <-. repeat split.
+  - destruct (spara_of_cons _ _ _ _ _ _ H) as [sv [sp' [H1 [H2 ->]]]].
+    destruct (IH sp' H2) as [E1 [E2 E3]].
+    destruct (sval_of_inv _ _ _ _ _ H1) as [order row rows Hl Hv Hrows Hs|s Hl Hv Hs]; subst v sv.
+    + pose proof (table_lookup_in _ _ _ Hl) as Hin.
+      destruct (table_entry_ok c _ order Hin) as [_ [Hok _]].
+      repeat split.
+      * cbn [map fst]. now rewrite E1.
+      * unfold para_of_spara in *. cbn [map fst snd fvalue_of_sval].
+        rewrite spec_order_is_lookup, Hl. now rewrite E2.
+      * intros b. unfold spec_raw in *. cbn [map fst snd]. rewrite E3.
+        unfold parse_entry at 1. cbn [fst snd]. rewrite spec_order_is_lookup, Hl.
+        now rewrite parse_spec_value.
+    + repeat split.
+      * cbn [map fst]. now rewrite E1.
+      * unfold para_of_spara in *. cbn [map fst snd fvalue_of_sval]. now rewrite E2.
+      * intros b. unfold spec_raw in *. cbn [map fst snd]. rewrite E3.
+        unfold parse_entry at 1. cbn [fst snd]. now rewrite Hl.
+Qed.
+
+(** Re-parsing the documented text of a paragraph of the domain gives the same
+    paragraph: same fields, same records, same order. *)
+Lemma reparse_in_domain c b p sp :
+  in_domain c p = Some sp ->
+  mv_init (table_of c) (spec_raw c b sp) = Ok p.
+Proof.
+  unfold in_domain. destruct (distinct_keys (map fst p)) eqn:Hd; [|discriminate]. intros Hsp.
+  destruct (in_domain_shapes true c p sp Hsp) as [E1 [_ E3]].
+  rewrite mv_init_map.
+  - now rewrite E3.
+  - unfold spec_raw. rewrite map_map. cbn [fst]. rewrite (map_ext _ fst) by reflexivity.
+    now rewrite E1.
+Qed.
+
+(** * 9. Building a paragraph of the domain by assignment: [p[key] = value] *)
+
+Lemma para_set_new k v : forall p,
+  forallb (fun kv => negb (key_eqb true (fst kv) k)) p = true ->
+  para_set k v p = p ++ [(k, v)].
+Proof.
+  induction p as [|[k' v'] p IH]; intros H; [reflexivity|].
+  cbn [forallb fst] in H. apply andb_true_iff in H. destruct H as [Hk H].
+  apply negb_true_iff in Hk. cbn [para_set app]. rewrite Hk. now rewrite IH.
+Qed.
+
+Lemma splitlines_lb_free s :
+  forallb (fun ch => negb (py_islinebreak ch)) s = true ->
+  tl (splitlines py_islinebreak false s) = [].
+Proof.
+  intros H. unfold splitlines.
+  rewrite <- (app_nil_r s). rewrite splitlines_aux_free by assumption.
+  cbn [splitlines_aux]. now destruct (rev s ++ []).
+Qed.
+
+Lemma validate_plain_ok c key s :
+  lookup_exact (ascii_lower key) (table_of c) = None ->
+  plain_value_ok s = true -> validate_input c key (Plain s) = Ok tt.
+Proof.
+  intros Hl Hs. unfold validate_input. rewrite Hl. unfold plain_value_ok in Hs.
+  destruct s as [|ch s']; [discriminate|].
+  destruct (last_opt (ch :: s')) as [l|] eqn:El; [|discriminate].
+  apply andb_true_iff in Hs. destruct Hs as [Hs Hlb].
+  apply andb_true_iff in Hs. destruct Hs as [_ Hlast].
+  destruct (last_opt_snoc _ _ El) as [y Ey]. rewrite Ey.
+  unfold endswith. rewrite rev_app_distr. cbn [rev app startswith].
+  assert (Hne : (LF =? l)%N = false).
+  { destruct (N.eqb_spec LF l) as [<-|]; [discriminate Hlast|reflexivity]. }
+  rewrite Hne. cbn [andb]. rewrite <- Ey. rewrite splitlines_lb_free; [reflexivity|].
+  apply negb_true_iff in Hlb. rewrite forallb_forall. intros x Hx.
+  apply negb_true_iff. destruct (py_islinebreak x) eqn:E; [|reflexivity].
+  assert (X : existsb py_islinebreak (ch :: s') = true) by (apply existsb_exists; eauto).
+  congruence.
+Qed.
+
+Lemma sval_of_validate c key v sv :
+  sval_of true c key v = Some sv -> validate_input c key v = Ok tt.
+Proof.
+  unfold sval_of. rewrite spec_order_is_lookup.
+  destruct (lookup_exact (ascii_lower key) (table_of c)) as [order|] eqn:E.
+  - intros _. unfold validate_input. now rewrite E.
+  - destruct v as [s|r|rs]; try discriminate. cbn [negb orb].
+    destruct (plain_key_ok key && plain_value_ok s) eqn:F; [|discriminate]. intros _.
+    apply andb_true_iff in F. destruct F as [_ F]. now apply validate_plain_ok.
+Qed.
+
+Lemma build_fold c : forall ops acc sp,
+  spara_of true c ops = Some sp ->
+  distinct_keys (map fst ops) = true ->
+  (forall kv, In kv ops -> forallb (fun kv' => negb (key_eqb true (fst kv') (fst kv))) acc = true) ->
+  fold_left (build_step c) ops (Ok acc) = Ok (acc ++ ops).
+Proof.
+  induction ops as [|[k v] ops IH]; intros acc sp Hsp Hd Hacc; [now rewrite app_nil_r|].
+  destruct (spara_of_cons _ _ _ _ _ _ Hsp) as [sv [sp' [H1 [H2 _]]]].
+  cbn [map fst distinct_keys] in Hd. apply andb_true_iff in Hd. destruct Hd as [Hk Hd].
+  cbn [fold_left]. unfold build_step at 2. cbn [bind fst snd].
+  rewrite (sval_of_validate _ _ _ _ H1). cbn [bind].
+  rewrite para_set_new by (apply (Hacc (k, v)); now left).
+  rewrite (IH _ sp' H2 Hd); [now rewrite <- app_assoc|].
+  intros [k2 v2] Hin. rewrite forallb_app. rewrite (Hacc (k2, v2)) by now right.
+  cbn [forallb fst andb key_eqb]. apply negb_true_iff in Hk.
+  destruct (str_eqb (ascii_lower k) (ascii_lower k2)) eqn:E; [|reflexivity]. exfalso.
+  apply str_eqb_eq in E.
+  assert (X : existsb (fun k' => str_eqb (ascii_lower k') (ascii_lower k)) (map fst ops) = true).
+  { apply existsb_exists. exists k2. split; [now apply (in_map fst) in Hin|].
+    rewrite E. apply str_eqb_refl. }
+  congruence.
+Qed.
+
+(** Assigning the fields of a paragraph of the domain one after the other to an
+    empty object raises nothing and yields that paragraph. *)
+Lemma build_in_domain c p sp : in_domain c p = Some sp -> build c p = Ok p.
+Proof.
+  unfold in_domain. destruct (distinct_keys (map fst p)) eqn:Hd; [|discriminate]. intros Hsp.
+  unfold build. now rewrite (build_fold c p [] sp Hsp Hd).
+Qed.
+
+(** * 10. The size column, concretely *)
+
+Lemma rjust_length w t : length (rjust w t) = Nat.max w (length t).
+Proof. unfold rjust. rewrite app_length, repeat_length. lia. Qed.
+
+Lemma longest_ge : forall l t, In t l -> length t <= longest l.
+Proof.
+  unfold longest. induction l as [|x l IH]; intros t Hin; [contradiction|].
+  cbn [map fold_right]. destruct Hin as [->|Hin]; [lia|]. specialize (IH t Hin). lia.
+Qed.
+
+Lemma size_in_sizes_of order row rows t :
+  In row rows -> In (spec_size_name, t) (combine order row) -> In t (sizes_of order rows).
+Proof.
+  intros Hr Ht. unfold sizes_of. apply in_flat_map. exists row. split; [assumption|].
+  apply in_map_iff. exists (spec_size_name, t). split; [reflexivity|].
+  apply filter_In. split; [assumption|]. apply str_eqb_refl.
+Qed.
+
+Lemma spec_width_cases c b order rows :
+  spec_width c b order rows
+  = match c, b with
+    | Release, Apt => Some 16
+    | Release, Dak | PdiffIndex, _ => Some (longest (sizes_of order rows))
+    | _, _ => None
+    end.
+Proof. destruct c, b; reflexivity. Qed.
+
+(** every size of the field, right-justified to the longest, has exactly that width *)
+Lemma size_column_exact order rows t :
+  In t (sizes_of order rows) ->
+  length (rjust (longest (sizes_of order rows)) t) = longest (sizes_of order rows).
+Proof. intros H. rewrite rjust_length. pose proof (longest_ge _ _ H). lia. Qed.
+
+(** * 11. The statements of Props/C12.v *)
+
+(** [size_right_aligned] *)
+Lemma get_as_string_documented c b ci p key order row rows :
+  lookup_exact (ascii_lower key) (table_of c) = Some order ->
+  para_get key p = Some (Multi (spec_records order (row :: rows))) ->
+  forallb (row_ok order) (row :: rows) = true ->
+  para_dumpable c ci p = true ->
+  get_as_string c b ci p key = Ok (spec_value c b order (row :: rows)).
+Proof.
+  intros Hl Hg Hr Hd. apply get_as_string_rows; auto. now apply dumpable_sized.
+Qed.
+
+(** [record_roundtrip] *)
+Lemma record_roundtrip c b ci p key order row rows :
+  lookup_exact (ascii_lower key) (table_of c) = Some order ->
+  para_get key p = Some (Multi (spec_records order (row :: rows))) ->
+  forallb (row_ok order) (row :: rows) = true ->
+  para_dumpable c ci p = true ->
+  exists s, get_as_string c b ci p key = Ok s
+            /\ mv_parse_field order s = Multi (spec_records order (row :: rows)).
+Proof.
+  intros Hl Hg Hr Hd. exists (spec_value c b order (row :: rows)). split.
+  - now apply get_as_string_documented.
+  - apply parse_spec_value; [|assumption].
+    now destruct (table_entry_ok c _ order (table_lookup_in _ _ _ Hl)) as [_ [Hok _]].
+Qed.
+
+(** parsing exposes each line as a record with the documented sub-field names *)
+Lemma parse_exposes_records c key order contents rows :
+  lookup_exact (ascii_lower key) (table_of c) = Some order ->
+  spec_rows order contents = Some rows ->
+  mv_parse_field order contents = Multi (spec_records order rows).
+Proof.
+  intros Hl Hr.
+  destruct (table_entry_ok c _ order (table_lookup_in _ _ _ Hl)) as [_ [Hok _]].
+  destruct (order_ok_parts order Hok) as [Hnd [Hne _]].
+  now apply parse_spec_rows.
+Qed.
+
+Lemma rec_get_cols ci (P : str -> bool) : forall order row pre rpre,
+  length row = length order -> length pre = length rpre ->
+  (forall y, In y order -> notin true y pre = true) ->
+  nodup_ci order = true ->
+  forallb P row = true ->
+  forallb (fun x => match rec_get ci x (combine pre rpre ++ combine order row) with
+                    | Ok v => P v
+                    | Err _ => false
+                    end) order = true.
+Proof.
+  induction order as [|x order IH]; intros row pre rpre Hlen Hpre Hnotin Hnd HP; [reflexivity|].
+  destruct row as [|t row]; [discriminate|].
+  simpl in Hlen. cbn [nodup_ci] in Hnd. cbn [forallb] in HP.
+  apply andb_true_iff in Hnd. destruct Hnd as [Hx Hnd].
+  apply andb_true_iff in HP. destruct HP as [Ht HP].
+  cbn [forallb combine].
+  assert (Hget : rec_get ci x (combine pre rpre ++ (x, t) :: combine order row) = Ok t).
+  { rewrite rec_get_skip; [|assumption|apply notin_ci, Hnotin; now left].
+    cbn [rec_get]. now rewrite key_eqb_refl. }
+  rewrite Hget, Ht. cbn [andb].
+  replace (combine pre rpre ++ (x, t) :: combine order row)
+    with (combine (pre ++ [x]) (rpre ++ [t]) ++ combine order row)
+    by (rewrite combine_snoc by assumption; now rewrite <- app_assoc).
+  apply IH; [lia|rewrite !app_length; simpl; lia| |assumption|assumption].
+  intros y Hy. rewrite notin_app. rewrite Hnotin by now right.
+  cbn [notin forallb andb]. rewrite forallb_forall in Hx. now rewrite (Hx y Hy).
+Qed.
+
+(** a paragraph of the domain is dumpable (so the totality theorem covers it) *)
+Lemma in_domain_dumpable c ci p sp : in_domain c p = Some sp -> para_dumpable c ci p = true.
+Proof.
+  unfold in_domain. destruct (distinct_keys (map fst p)); [|discriminate]. intros Hsp.
+  unfold para_dumpable. rewrite forallb_forall. intros [key v] Hin.
+  destruct (spara_of_in _ _ _ _ _ _ Hsp Hin) as [sv Hsv].
+  unfold entry_dumpable. cbn [fst snd].
+  destruct (sval_of_inv _ _ _ _ _ Hsv) as [order row rows Hl Hv Hrows _|s Hl Hv _]; subst v; rewrite Hl;
+    [|reflexivity].
+  destruct (table_entry_ok c _ order (table_lookup_in _ _ _ Hl)) as [_ [Hok _]].
+  destruct (order_ok_parts order Hok) as [Hnd _].
+  unfold spec_records. cbn [val_dumpable map].
+  change (combine order row :: map (combine order) rows) with (map (combine order) (row :: rows)).
+  rewrite forallb_forall. intros r Hr. apply in_map_iff in Hr. destruct Hr as [r0 [<- Hr0]].
+  rewrite forallb_forall in Hrows. destruct (row_ok_parts _ _ (Hrows r0 Hr0)) as [Hlen [_ Hlf]].
+  exact (rec_get_cols ci _ order r0 [] [] Hlen eq_refl (fun _ _ => eq_refl) Hnd Hlf).
+Qed.
+
+(** * 12. Dumping a PARSED paragraph: total whichever structured fields are present *)
+
+Lemma split_ws_aux_tokens isspace : forall s cur,
+  forallb (fun ch => negb (isspace ch)) cur = true ->
+  forallb (forallb (fun ch => negb (isspace ch))) (split_ws_aux isspace s cur) = true.
+Proof.
+  assert (Hrev : forall cur, forallb (fun ch => negb (isspace ch)) cur = true ->
+                             forallb (fun ch => negb (isspace ch)) (rev cur) = true).
+  { intros cur H. rewrite forallb_forall in *. intros x Hx. apply H. now apply in_rev. }
+  induction s as [|x s IH]; intros cur Hcur; cbn [split_ws_aux].
+  - destruct cur; [reflexivity|]. cbn [forallb]. now rewrite Hrev.
+  - destruct (isspace x) eqn:E.
+    + destruct cur; [now apply IH|]. cbn [forallb]. rewrite Hrev by assumption. now apply IH.
+    + apply IH. cbn [forallb]. now rewrite E.
+Qed.
+
+Lemma lf_is_space : py_isspace LF = true.
+Proof. vm_compute. reflexivity. Qed.
+
+Lemma split_ws_no_lf s :
+  forallb (fun t => negb (mem_char LF t)) (split_ws py_isspace s) = true.
+Proof.
+  pose proof (split_ws_aux_tokens py_isspace s [] eq_refl) as H. fold (split_ws py_isspace s) in H.
+  rewrite forallb_forall in *. intros t Ht. specialize (H t Ht).
+  apply negb_true_iff. unfold mem_char. destruct (existsb (N.eqb LF) t) eqn:E; [|reflexivity].
+  apply existsb_exists in E. destruct E as [ch [Hin Hch]]. apply N.eqb_eq in Hch. subst ch.
+  rewrite forallb_forall in H. specialize (H _ Hin). now rewrite lf_is_space in H.
+Qed.
+
+Lemma spec_rows_inv order contents rows :
+  spec_rows order contents = Some rows ->
+  rows <> []
+  /\ forallb (fun r => (length r =? length order)%nat) rows = true
+  /\ forallb (forallb (fun t => negb (mem_char LF t))) rows = true.
+Proof.
+  unfold spec_rows. destruct contents as [|ch rest]; [discriminate|].
+  destruct (ch =? LF)%N; [|discriminate].
+  destruct (forallb _ (split_on LF rest)); [|discriminate]. cbn [andb].
+  destruct (forallb _ (map (split_ws py_isspace) (split_on LF rest))) eqn:Hlen; [|discriminate].
+  intros [= <-]. repeat split.
+  - pose proof (split_on_nonempty LF rest). destruct (split_on LF rest); [congruence|discriminate].
+  - exact Hlen.
+  - rewrite forallb_forall. intros r Hr. apply in_map_iff in Hr. destruct Hr as [l [<- _]].
+    apply split_ws_no_lf.
+Qed.
+
+(** every structured field present in the text has complete lines (one value per
+    sub-field on each continuation line); nothing is asked about absent fields *)
+Definition raw_ok (c : cls) (raw : list (str * str)) : bool :=
+  forallb (fun kv => match lookup_exact (ascii_lower (fst kv)) (table_of c) with
+                     | Some order => match spec_rows order (snd kv) with Some _ => true | None => false end
+                     | None => true
+                     end) raw.
+
+Lemma parsed_dumpable c raw :
+  raw_ok c raw = true -> para_dumpable c true (map (parse_entry (table_of c)) raw) = true.
+Proof.
+  intros H. unfold para_dumpable. rewrite forallb_forall. intros e He.
+  apply in_map_iff in He. destruct He as [[key s] [<- Hin]].
+  unfold raw_ok in H. rewrite forallb_forall in H. specialize (H _ Hin). cbn [fst snd] in H.
+  unfold entry_dumpable, parse_entry. cbn [fst snd].
+  destruct (lookup_exact (ascii_lower key) (table_of c)) as [order|] eqn:Hl; [|reflexivity].
+  destruct (spec_rows order s) as [rows|] eqn:Hr; [|discriminate].
+  destruct (table_entry_ok c _ order (table_lookup_in _ _ _ Hl)) as [_ [Hok _]].
+  destruct (order_ok_parts order Hok) as [Hnd [Hne _]].
+  rewrite (parse_spec_rows order s rows Hnd Hne Hr).
+  destruct (spec_rows_inv _ _ _ Hr) as [Hrows [Hlen Hlf]].
+  destruct rows as [|row rows]; [congruence|].
+  unfold spec_records. cbn [val_dumpable map].
+  change (combine order row :: map (combine order) rows) with (map (combine order) (row :: rows)).
+  rewrite forallb_forall. intros r Hrr. apply in_map_iff in Hrr. destruct Hrr as [r0 [<- Hr0]].
+  rewrite forallb_forall in Hlen, Hlf.
+  pose proof (Hlen r0 Hr0) as Hl0. apply Nat.eqb_eq in Hl0.
+  exact (rec_get_cols true _ order r0 [] [] Hl0 eq_refl (fun _ _ => eq_refl) Hnd (Hlf r0 Hr0)).
+Qed.
+
+(** [K(text).dump()] raises nothing, for every class, both behaviours, and EVERY subset
+    of the class's structured fields being present in the text. *)
+Lemma parsed_dump_total c b raw :
+  distinct_keys (map fst raw) = true -> raw_ok c raw = true ->
+  exists q, mv_init (table_of c) raw = Ok q /\ is_ok (dump_para c b true q) = true.
+Proof.
+  intros Hd Hok. exists (map (parse_entry (table_of c)) raw). split.
+  - now apply mv_init_map.
+  - apply dump_para_total. now apply parsed_dumpable.
+Qed.
